@@ -387,6 +387,13 @@ for _arm, _axes in [("1d", [("x", 0)]), ("2d", [("x", 0), ("y", 1)]), ("3d", [("
 SITES.append(("in_grid_nd_low", INTERP, _ARM["nd"], r"interp\.grid\[i\]\[0\]", r"point\[i\]"))
 SITES.append(("in_grid_nd_high", INTERP, _ARM["nd"], r"&point\[i\]", r"interp\.grid\[i\]\.last\(\)\.unwrap\(\)"))
 
+for _dim, _axes in [("1D", ["x"]), ("2D", ["x", "y"]), ("3D", ["x", "y", "z"])]:
+    for _ax in _axes:
+        SITES.append((f"sorted_{_dim.lower()}_{_ax}", INTERP, rf"re:impl InterpValidate for Interp{_dim} \{{(.*?)\nimpl ",
+                      rf"self\.{_ax}\.windows\(2\)\.all\(\|w\| w\[0\]", r"w\[1\]"))
+SITES.append(("sorted_nd", INTERP, r"re:impl InterpValidate for InterpND \{(.*?)\nimpl ",
+              r"self\.grid\[i\]\.windows\(2\)\.all\(\|w\| w\[0\]", r"w\[1\]"))
+
 
 def fn_scope(src, name):
     """text of `fn name(...) ... { body }` by brace matching; None when absent"""
